@@ -223,3 +223,26 @@ except AssertionError as e:
     refused = (step, asym, float(np.max(np.abs(cv.data))))
 report("D12", refused is not None, f"large-magnitude covariance refused by the symmetry gate at step/asymmetry/magnitude {refused}")
 print("present:", [n for n, p in out if p])
+
+# D13 -----------------------------------------------------------------------------------
+# innovation covariance S = H P H^T + Q handed to the symmetry gate as the products left it: the products round relative to |H|^2 |P|
+# (state ~1e4 => |H|^2 ~ 1e8), S itself is ~|Q| once the first update has deflated P along H; the gate tolerates 1e-8*|S| => the filter's own
+# second update is refused.  (Found through a sub-agent's remark while it built equivalence histories; repaired by 8fbcf08.)
+x13, y13, v13, a13 = ui.symbols(["x", "y", "v", "a"])
+m13 = ui.Model(dt=dt, state={x13, y13, v13}, control={a13}, state_model={x13: x13 + dt * v13, y13: y13, v13: v13 + dt * a13})
+ekf13 = python.compile_ekf(symbolic_model=m13, process_noise={a13: 1.0}, sensor_models={"s": {"p": x13 * y13, "q": v13 * v13}},
+                           sensor_noises={"s": {"p": 0.3, "q": 0.4}}, config=python.Config(innovation_filtering=None))
+refused13 = 0
+for seed in range(20):
+    rng = np.random.default_rng(seed)
+    st = ekf13.State.from_data(rng.normal(size=(3, 1)) * 1e4)
+    r_ = rng.normal(size=(3, 3))
+    cv = ekf13.Covariance.from_data(r_ @ r_.T + np.eye(3))
+    try:
+        for k in range(3):
+            z = ekf13.sensor_models["s"].model(st).data + rng.normal(size=(2, 1))
+            st, cv = ekf13.sensor_model(st, cv, sensor_key="s", sensor_reading=ekf13.make_reading("s", data=z))
+    except AssertionError:
+        refused13 += 1
+report("D13", refused13 > 0, f"{refused13}/20 histories: the second update of a valid filter (state ~1e4, S ~ 0.7) refused: Sensor Uncertainty not symmetric")
+print("present:", [n for n, p in out if p])
